@@ -481,6 +481,60 @@ def check_convergence(tier, res):
 
 
 # ------------------------------------------------------------------ driver
+def check_forms(res):
+    """integer-typed / list / Fortran-ordered / strided force histories holding the same values give the response of the
+    float64 C-ordered history bit for bit (Newmark with and without nonlinear terms and rf modes, CDF both orders), and
+    the caller's arrays are not modified"""
+    from pyyeti import ode
+
+    msgs = []
+    Fi = np.array([[1, -2, 0, 3, -1, 2], [0, 1, -1, 2, 4, -3], [-2, 1, 1, 0, 3, 0]], dtype=np.int64)
+    big = np.zeros((2 * Fi.shape[0], 2 * Fi.shape[1] + 1))
+    big[::2, 1::2] = Fi
+    forms = {"int64": Fi, "int32": Fi.astype(np.int32), "int8": Fi.astype(np.int8), "list": Fi.tolist(),
+             "fortran": np.asfortranarray(Fi.astype(float)), "strided": big[::2, 1::2]}
+    d0, v0 = np.array([0.1, -0.2, 0.05]), np.array([-3.0, 2.0, 1.0])
+    makers = {}
+    for name, M, B, K in nm_systems():
+        if name.split("/")[0] in ("m1d", "mfull", "msingular"):
+            makers["newmark/" + name] = (lambda M=M, B=B, K=K: ode.SolveNewmark(M, B, K, 0.01))
+            makers["newmark+rf/" + name] = (lambda M=M, B=B, K=K: ode.SolveNewmark(M, B, K, 0.01, rf=[2]))
+    def nl():
+        ts = ode.SolveNewmark(np.array([1.0, 2.0, 0.5]), np.array([0.8, 2.5, 9.0]), np.array([40.0, 250.0, 900.0]), 0.01)
+        ts.def_nonlin({"cubic": (lambda d, j, h: -50.0 * d[[0], j] ** 3, np.array([[1.0], [0.0], [-1.0]]), {})})
+        return ts
+    makers["newmark/nonlin"] = nl
+    for layout, m, B, k, rf in cdf_systems():
+        for order in (0, 1):
+            makers["cdf/%s/o%d" % (layout, order)] = (lambda m=m, B=B, k=k, rf=rf, order=order: ode.SolveCDF(m, B, k, 0.01, rf=rf or None, order=order))
+    for mname, mk in makers.items():
+        for ic in (False, True):
+            if ic and "msingular" in mname:
+                continue
+            kw = dict(d0=d0, v0=v0) if ic else {}
+            try:
+                base = mk().tsolve(Fi.astype(float), **kw)
+            except Exception as e:  # noqa
+                msgs.append("%s: raised %r for the float64 force" % (mname, e))
+                continue
+            res.ev("forms/%s/ic%d" % (mname, ic))
+            for fn, Fx in forms.items():
+                snap = None if isinstance(Fx, list) else Fx.copy()
+                try:
+                    sol = mk().tsolve(Fx, **kw)
+                except Exception as e:  # noqa
+                    msgs.append("%s: tsolve raised %r for a force given as %s" % (mname, e, fn))
+                    continue
+                for nm in "dva":
+                    x, y = getattr(sol, nm), getattr(base, nm)
+                    if x.dtype != y.dtype or x.shape != y.shape or not np.array_equal(x, y):
+                        msgs.append("%s: force given as %s: %s differs from the response to the same values as float64 (dtype %s)" % (mname, fn, nm, x.dtype))
+                        break
+                if snap is not None and not (Fx.dtype == snap.dtype and np.array_equal(Fx, snap)):
+                    msgs.append("%s: tsolve modified the caller's force array (%s)" % (mname, fn))
+    return msgs
+
+
 def shards(tier, seed):
     hsv = [0.01, 0.1] if tier == "quick" else [1e-3, 0.01, 0.1, 1.0]
     out = []
@@ -489,6 +543,7 @@ def shards(tier, seed):
     for ci in range(len(cdf_systems())):
         out.append(dict(part="cdf", sys=ci, hs=hsv, tier=tier))
     out.append(dict(part="conv", tier=tier))
+    out.append(dict(part="forms", tier=tier))
     r = seed % len(out)
     return out[r:] + out[:r]
 
@@ -519,6 +574,10 @@ def run_shard(sh):
             for msg in msgs:
                 res.viol(case, msg, kind="cdf-" + " ".join(msg.split()[:3]))
         res.sample(case)
+    elif sh["part"] == "forms":
+        for m in check_forms(res):
+            res.viol(dict(part="forms", tier=tier), m, kind="forms-" + m.split(":")[0] + m.split(":")[1][:24])
+        res.sample(dict(part="forms"))
     else:
         for case, m in check_convergence(tier, res):
             res.viol(dict(tier=tier, **case), m, kind="conv-" + m.split()[0])
@@ -535,4 +594,6 @@ def replay(case):
     if case["part"] == "cdf":
         layout, m, B, k, rf = cdf_systems()[case["sys"]]
         return check_cdf(layout, m, B, k, rf, case["h"], case["order"], case["force"], case["ic"], tier, res)
+    if case["part"] == "forms":
+        return check_forms(res)
     return [m for c, m in check_convergence(tier, res) if all(c[k] == case.get(k) for k in c)]
